@@ -37,7 +37,8 @@ TClose == /\ IsEvent("LClose")
 \* a blocked open (no timeout) succeeds once the conflicting holder has closed
 TWaiter == /\ IsEvent("LWaiter")
            /\ Expect(E.blockedWhileHeld /\ E.acquiredAfterClose, "a waiting open did not block while the lock was held, or did not succeed after it was released")
-           /\ UNCHANGED held
+           \* ... and then holds the lock in the mode it asked for (the following LOpen / LClose events are judged against that)
+           /\ held' = IF E.acquiredAfterClose THEN [held EXCEPT ![E.a] = E.waiter] ELSE held
 \* a read-only database: writers refused, not one byte written, file unchanged - whatever is called on it
 TROSession == /\ IsEvent("ROSession")
               /\ Expect(E.beginWriteErr = "ErrDatabaseReadOnly" /\ E.updateErr = "ErrDatabaseReadOnly" /\ E.batchErr = "ErrDatabaseReadOnly",
